@@ -6,6 +6,7 @@ package olareg
 // C16 (isolation, path monitor).
 
 import (
+	"context"
 	"fmt"
 	"os"
 	"path"
@@ -13,6 +14,11 @@ import (
 	"sort"
 	"strings"
 	"time"
+
+	"github.com/opencontainers/go-digest"
+
+	"github.com/olareg/olareg/internal/store"
+	"github.com/olareg/olareg/types"
 )
 
 func init() {
@@ -297,6 +303,11 @@ func planC14(prop string, seed uint64, tier string, idx int) *Plan {
 		case 7:
 			g.add(Op{K: "del", Mode: "blob", Repo: repo, Obj: g.r.pick(extra, g.p.Objs[subj].Config)})
 		case 8, 9:
+			if k.ReadOnly == 1 && g.r.chance(35) {
+				g.add(Op{K: "storeapi", Repo: repo, A: g.r.intn(1000)})
+				g.add(g.tagsOp(repo))
+				break
+			}
 			op := g.readOp(repo)
 			if op.Mode == "tag" {
 				op.Tag = fmt.Sprintf("t%d", g.r.pick(subj, img2, index, art, art2))
@@ -794,3 +805,61 @@ func planC16(prop string, seed uint64, tier string, idx int) *Plan {
 func filepathBase(s string) string { return path.Base(s) }
 
 var _ = os.Stat
+
+// opStoreAPI (C14): the mutating calls of the store interface itself, on a read-only store. Every one of them is refused,
+// and refused means nothing happened: what the API serves afterwards is what it served before (the handlers have guards
+// of their own in front of the store, so only these calls tell whether the store keeps its promise by itself).
+func (w *World) opStoreAPI(op Op) {
+	if w.closed || !w.k.readOnly() || w.srv == nil || w.srv.store == nil {
+		return
+	}
+	name := w.repoName(op.Repo)
+	body := []byte("pushed through the store interface")
+	dig := digest.FromBytes(body)
+	w.m.usedTags["viastore"] = true
+	w.m.usedDigests[dig.String()] = true
+	pre := w.observe(name)
+	repo, err := w.srv.store.RepoGet(context.Background(), name)
+	if err != nil {
+		return
+	}
+	idx, _ := repo.IndexGet()
+	var calls []string
+	refused := func(what string, err error) {
+		calls = append(calls, what)
+		if err == nil {
+			w.x.viol([]string{"C14"}, "ro.store-api", what+" succeeded", fmt.Sprintf("%s on repository %s of a read-only %s store returned no error", what, name, w.k.Store))
+		}
+	}
+	r := newRng(uint64(op.A) + 1)
+	if n := len(idx.Manifests); n > 0 {
+		d := idx.Manifests[r.intn(n)]
+		refused("IndexRemove", repo.IndexRemove(d))
+		// an entry for other content under a tag that exists
+		if d.Annotations[types.AnnotRefName] != "" && n > 1 {
+			o := idx.Manifests[(r.intn(n-1)+1+indexOf(idx.Manifests, d))%n]
+			o.Annotations = map[string]string{types.AnnotRefName: d.Annotations[types.AnnotRefName]}
+			refused("IndexInsert (tag move)", repo.IndexInsert(o))
+		}
+		refused("BlobDelete", repo.BlobDelete(d.Digest))
+	}
+	refused("IndexInsert (new tag)", repo.IndexInsert(types.Descriptor{MediaType: mtOCIManifest, Digest: dig, Size: int64(len(body)), Annotations: map[string]string{types.AnnotRefName: "viastore"}}))
+	bc, _, err := repo.BlobCreate(store.BlobWithDigest(dig))
+	refused("BlobCreate", err)
+	if err == nil && bc != nil {
+		_, _ = bc.Write(body)
+		_ = bc.Close()
+	}
+	repo.Done()
+	w.compareObs(name, pre, []string{"C14"}, "ro.store-api", strings.Join(calls, ", "))
+	w.x.out.probe("store-api-on-read-only")
+}
+
+func indexOf(l []types.Descriptor, d types.Descriptor) int {
+	for i := range l {
+		if l[i].Digest == d.Digest && l[i].Annotations[types.AnnotRefName] == d.Annotations[types.AnnotRefName] {
+			return i
+		}
+	}
+	return 0
+}
